@@ -69,6 +69,12 @@ def _picture_mismatches(glyphs, result, evaluator_factory, n=11, otsvg=False):
             if got is None:
                 continue
             if isinstance(got, str) or not e2e.color_close(want, got):
+                if not isinstance(got, str):
+                    # rounding of gradient geometry to integers moves the colour line by up
+                    # to ~(1 + t/2) font units: accept what the specification paints nearby
+                    delta = (1.0 + 0.5 * e2e.gradient_t_at(g, p)) / s
+                    if delta < margin and e2e.within_envelope(g, p, got, delta):
+                        continue
                 bad.append((gi, p, tuple(round(v, 3) for v in want), got if isinstance(got, str) else tuple(round(v, 3) for v in got)))
     return bad
 
@@ -336,6 +342,10 @@ def _colr_to_svg_mismatch(glyphs, result):
             if got is None:
                 continue
             if isinstance(got, str) or not e2e.color_close(want, got):
+                if not isinstance(got, str):
+                    delta = (1.0 + 0.5 * e2e.gradient_t_at(g, p)) / s
+                    if delta < margin and e2e.within_envelope(g, p, got, delta):
+                        continue
                 bad.append((name, p, want, got))
     return bad
 
